@@ -300,6 +300,9 @@ class Inliner:
                     for c in [caller.cls]:
                         h = c.methods.get(f.attr)
                         if h is not None and h.qual not in self.inv_funcs and not h.is_property:
+                            # cls.helper(...) inside a classmethod: the helper's `cls` is the caller's `cls`, whatever subclass it is
+                            if h.is_classmethod and caller.is_classmethod:
+                                self._cls_call_ok = True
                             return h, base
                 kind, q = prog.resolve(caller.module, base.id)
                 if kind == "class" and q in prog.classes:
@@ -320,7 +323,7 @@ class Inliner:
     def _bind(self, helper, call, self_expr, caller_names, pure_chains=False):
         """(prelude statements, Name->expr mapping, rename map) or None"""
         a = helper.node.args
-        if a.vararg or a.kwarg or a.posonlyargs and False:
+        if a.kwarg:
             return None
         params = [x.arg for x in a.posonlyargs + a.args]
         mapping = {}
@@ -336,10 +339,20 @@ class Inliner:
             bound[params[0]] = self_expr if self_expr is not None else ast.Name(id="self", ctx=ast.Load())
             start = 1
         rest = params[start:]
+        extra_args = []
         if len(args) > len(rest):
-            return None
+            if not a.vararg:
+                return None
+            # *vararg: the surplus positional arguments, as the tuple the callee sees
+            extra_args, args = args[len(rest):], args[:len(rest)]
         for p, v in zip(rest, args):
             bound[p] = v
+        if a.vararg:
+            if any(isinstance(n, ast.Name) and n.id == a.vararg.arg and isinstance(n.ctx, ast.Store) for n in ast.walk(helper.node)):
+                return None
+            if not all(_simple_arg(x) or isinstance(x, ast.Attribute) for x in extra_args):
+                return None
+            bound[a.vararg.arg] = ast.Tuple(elts=[copy.deepcopy(x) for x in extra_args], ctx=ast.Load())
         for k in call.keywords:
             if k.arg not in rest + [x.arg for x in a.kwonlyargs] or k.arg in bound:
                 return None
@@ -371,7 +384,8 @@ class Inliner:
                 while isinstance(e_, ast.Attribute):
                     e_ = e_.value
                 chain_ok = isinstance(e_, ast.Name) and isinstance(v, ast.Attribute)
-            if p in stores or not (_simple_arg(v) or chain_ok):
+            vararg_tuple = a.vararg is not None and p == a.vararg.arg
+            if p in stores or not (_simple_arg(v) or chain_ok or vararg_tuple):
                 # bind through a temporary (keeps single evaluation)
                 nm = p if p not in caller_names else None
                 if nm is None:
@@ -442,7 +456,14 @@ class Inliner:
                 if (last in sensitive and last not in BUILTIN_SCOPE_SENSITIVE) or d.startswith("inspect.") or d.startswith("sys._"):
                     return False
             if isinstance(n, ast.Attribute) and n.attr in ("f_back", "f_locals", "f_globals", "_getframe"):
-                return False
+                # reading a frame that was HANDED IN (a parameter, or a local derived from one) does not depend on where the
+                # helper runs; obtaining a frame does (the calls above)
+                base_ = n.value
+                while isinstance(base_, ast.Attribute):
+                    base_ = base_.value
+                hp_ = set(helper.params) | {x.id for x in ast.walk(helper.node) if isinstance(x, ast.Name) and isinstance(x.ctx, ast.Store)}
+                if n.attr == "_getframe" or not (isinstance(base_, ast.Name) and base_.id in hp_):
+                    return False
         # no (mutual) recursion
         for c in ast.walk(helper.node):
             if isinstance(c, ast.Call) and (dotted(c.func) or "").split(".")[-1] == helper.name:
